@@ -312,6 +312,16 @@ fn near_miss(t: &mut Tape, line: &str) -> String {
             }
         }
     }
+    if let Some(o) = &opts {
+        // redirect=R and redirect-rule=R are different options (the first also blocks)
+        if t.chance(1, 2) {
+            if let Some(i) = o.find("redirect-rule=") {
+                return join(&pat, &Some(format!("{}redirect={}", &o[..i], &o[i + 14..])));
+            } else if let Some(i) = o.find("redirect=") {
+                return join(&pat, &Some(format!("{}redirect-rule={}", &o[..i], &o[i + 9..])));
+            }
+        }
+    }
     match t.pick(9) {
         0 => {
             // shift one character across the hostname/path boundary of ||host/path
